@@ -4,9 +4,10 @@
    Only statements, each closed by [exact]; non-vacuity Examples; [_refuted] witnesses for the
    code as it was before the repair of F-C10 (8b69b91). *)
 From Coq Require Import List Arith NArith Bool.
-From Eino Require Import Base.Util Base.GoSlice Model.Callbacks Model.CallbacksStream Model.CallbacksSched.
+From Eino Require Import Base.Util Base.GoSlice Model.Callbacks Model.CallbacksStream Model.CallbacksSched
+  Model.CallbacksResume Model.CallbacksEager.
 From Eino Require Import Proofs.CallbacksSlice Proofs.Callbacks Proofs.CallbacksEngine Proofs.CallbacksStream
-  Proofs.CallbacksSched Proofs.CallbacksWitness.
+  Proofs.CallbacksSched Proofs.CallbacksWitness Proofs.CallbacksResume Proofs.CallbacksEager.
 Import ListNotations.
 Local Open Scope N_scope.
 
@@ -390,6 +391,225 @@ Theorem exactly_once_paired_v0_refuted :
       = uexp_events w e.
 Proof. exact exactly_once_paired_v0_refuted_witness. Qed.
 Print Assumptions exactly_once_paired_v0_refuted.
+
+(* ------------------------------------------------------------------ eager task collection (Workflow) *)
+
+(* [reorder c t] (Model/CallbacksEager.v): t arises from c by exchanging adjacent operations of
+   different units neither of which creates the context the other reads.  The executions of a
+   Workflow (eager task collection: the run returns and the graph reports its error as soon as
+   one task has failed, while the other tasks of that step, nested workflows included, finish
+   on their own) are reorderings of schedules of the program tree that are in general NOT
+   schedules of the tree (example below).  Exchanging independent operations changes no unit's
+   events: *)
+Theorem reordering_preserves_unit_events :
+  forall (w : world) (c t : list op),
+    reorder c t ->
+    forall u, filter (of_unit u) (st_log (run_script true w t)) = filter (of_unit u) (st_log (run_script true w c)).
+Proof. exact reorder_unit_logs. Qed.
+Print Assumptions reordering_preserves_unit_events.
+
+(* ... hence exactly-once-paired for every reordering of every schedule of every graph *)
+Theorem eager_exactly_once_paired_units :
+  forall w is_stream g ginf opts stages t0 t,
+    NoDup (g :: stages_uids stages) ->
+    traces (graph_prog is_stream g ginf opts stages) t0 -> reorder t0 t ->
+    forall e, In e (graph_table is_stream g ginf opts stages) ->
+      filter (of_unit (ue_unit e)) (st_log (run_script true w t)) = uexp_events w e.
+Proof. exact eager_unit_logs. Qed.
+Print Assumptions eager_exactly_once_paired_units.
+
+Theorem eager_no_other_events :
+  forall w is_stream g ginf opts stages t0 t,
+    NoDup (g :: stages_uids stages) ->
+    traces (graph_prog is_stream g ginf opts stages) t0 -> reorder t0 t ->
+    forall ev, In ev (st_log (run_script true w t)) ->
+      exists e, In e (graph_table is_stream g ginf opts stages) /\ ev_unit ev = ue_unit e /\
+                In ev (uexp_events w e).
+Proof. exact Proofs.CallbacksEager.eager_no_other_events. Qed.
+Print Assumptions eager_no_other_events.
+
+Theorem eager_exactly_once_paired :
+  forall w is_stream g ginf opts stages t0 t,
+    NoDup (g :: stages_uids stages) ->
+    traces (graph_prog is_stream g ginf opts stages) t0 -> reorder t0 t ->
+    forall e, In e (graph_table is_stream g ginf opts stages) ->
+    forall s f, ue_timings e = [s; f] ->
+    forall x tm,
+      List.length (filter (is_ev (ue_unit e) x tm (ue_info e)) (st_log (run_script true w t))) =
+      if (timing_eqb tm s || timing_eqb tm f) && w_needs w x tm
+      then count_occ N.eq_dec (ue_list e ++ w_globals w) x else 0%nat.
+Proof. exact Proofs.CallbacksEager.eager_exactly_once_paired. Qed.
+Print Assumptions eager_exactly_once_paired.
+
+Theorem eager_model_never_flags :
+  forall w is_stream g ginf opts stages t0 t,
+    NoDup (g :: stages_uids stages) ->
+    traces (graph_prog is_stream g ginf opts stages) t0 -> reorder t0 t ->
+    st_bad (run_script true w t) = false.
+Proof. exact eager_never_flagged. Qed.
+Print Assumptions eager_model_never_flags.
+
+(* every schedule of the program tree ends with the graph's own end-or-error callback ... *)
+Theorem tree_schedules_end_with_the_graph :
+  forall is_stream g ginf opts stages t,
+    graph_ok stages opts = true ->
+    traces (graph_prog is_stream g ginf opts stages) t ->
+    exists t' tm, t = t' ++ [OOn g tm].
+Proof. exact graph_prog_last. Qed.
+Print Assumptions tree_schedules_end_with_the_graph.
+
+(* ... an eager execution need not: node 1 fails, the graph reports the error, and only then node
+   2 (slower) creates its callback context, starts and ends.  It is a reordering of the
+   canonical order, not a schedule of the tree, and node 2 is still served exactly its start
+   events followed by its end events (handler 1 for the graph, 5 designated to node 2, global 9). *)
+Definition eg_opts : list copt := [([1], []); ([5], [[2]])].
+Definition eg_stages : list (list gnode) := [[GLambda 1 1 1 1 true; GLambda 2 2 2 1 false]].
+Definition eg_eager : list op :=
+  [OAppend None 0 0 [[1]]; OOn 0 TStart;
+   OAppend (Some 0) 1 1 []; OOn 1 TStart; OOn 1 TError;
+   OOn 0 TError;
+   OAppend (Some 0) 2 2 [[5]]; OOn 2 TStart; OOn 2 TEnd].
+
+Example eager_nonvacuous :
+  NoDup (0 :: stages_uids eg_stages) /\
+  reorder (graph_ops false 0 0 eg_opts eg_stages) eg_eager /\
+  ~ traces (graph_prog false 0 0 eg_opts eg_stages) eg_eager /\
+  filter (of_unit 2) (st_log (run_script true (w_plain [9]) eg_eager)) =
+    [Ev 2 9 TStart 2; Ev 2 5 TStart 2; Ev 2 1 TStart 2; Ev 2 1 TEnd 2; Ev 2 5 TEnd 2; Ev 2 9 TEnd 2].
+Proof.
+  split; [vm_compute; repeat (constructor; [simpl; intuition discriminate|]); constructor|].
+  split.
+  - assert (I : forall o, In o [OAppend (Some 0) 2 2 [[5]]; OOn 2 TStart; OOn 2 TEnd] -> indep o (OOn 0 TError)).
+    { intros o [<-|[<-|[<-|[]]]]; (split; [simpl; discriminate|]); split; simpl; intros u E; try discriminate;
+        injection E as <-; intros [H|[]]; discriminate. }
+    apply (RO_swap _ [OAppend None 0 0 [[1]]; OOn 0 TStart; OAppend (Some 0) 1 1 []; OOn 1 TStart; OOn 1 TError]
+                   (OAppend (Some 0) 2 2 [[5]]) (OOn 0 TError) [OOn 2 TStart; OOn 2 TEnd]); [|apply I; simpl; auto].
+    apply (RO_swap _ [OAppend None 0 0 [[1]]; OOn 0 TStart; OAppend (Some 0) 1 1 []; OOn 1 TStart; OOn 1 TError;
+                      OAppend (Some 0) 2 2 [[5]]]
+                   (OOn 2 TStart) (OOn 0 TError) [OOn 2 TEnd]); [|apply I; simpl; auto].
+    apply (RO_swap _ [OAppend None 0 0 [[1]]; OOn 0 TStart; OAppend (Some 0) 1 1 []; OOn 1 TStart; OOn 1 TError;
+                      OAppend (Some 0) 2 2 [[5]]; OOn 2 TStart]
+                   (OOn 2 TEnd) (OOn 0 TError) []); [|apply I; simpl; auto].
+    vm_compute. apply RO_refl.
+  - split; [|vm_compute; reflexivity].
+    intros T. apply tree_schedules_end_with_the_graph in T; [|vm_compute; reflexivity].
+    destruct T as (t' & tm & E). apply (f_equal (@rev op)) in E. rewrite rev_app_distr in E.
+    vm_compute in E. discriminate.
+Qed.
+
+(* ------------------------------------------------------------------ interrupt / resume *)
+
+(* A run plan (Model/CallbacksResume.v): a nested layered graph whose lambdas and tool calls ask
+   for an interrupt (compose.InterruptAndRerun) during their next k executions.  [plan_seq] is
+   the run and the runs that resume it (same checkpoint id, same call options): a run in which
+   an execution asks for an interrupt (directly, through a tool call, or through a nested graph)
+   ends with an error after the stage, the next run executes the interrupted nodes again
+   (a nested graph continues from its own interrupted stage) and not the completed ones.
+   [run_seq] = what each run executes: (the call options that still designate something, the
+   graph).  For EVERY plan, every call options, every run of the sequence and every schedule of
+   that run: every executed unit - also one whose execution ends with an interrupt - has exactly
+   its start events followed by its end-or-error events. *)
+Theorem resumed_runs_exactly_once_paired_units :
+  forall w is_stream g ginf fuel opts plan r t,
+    NoDup (g :: rstages_uids plan) ->
+    In r (run_seq fuel opts plan) ->
+    traces (graph_prog is_stream g ginf (fst r) (snd r)) t ->
+    forall e, In e (graph_table is_stream g ginf (fst r) (snd r)) ->
+      filter (of_unit (ue_unit e)) (st_log (run_script true w t)) = uexp_events w e.
+Proof. exact runs_unit_logs. Qed.
+Print Assumptions resumed_runs_exactly_once_paired_units.
+
+Theorem resumed_runs_no_other_events :
+  forall w is_stream g ginf fuel opts plan r t,
+    NoDup (g :: rstages_uids plan) ->
+    In r (run_seq fuel opts plan) ->
+    traces (graph_prog is_stream g ginf (fst r) (snd r)) t ->
+    forall ev, In ev (st_log (run_script true w t)) ->
+      exists e, In e (graph_table is_stream g ginf (fst r) (snd r)) /\ ev_unit ev = ue_unit e /\
+                In ev (uexp_events w e).
+Proof. exact runs_no_other_events. Qed.
+Print Assumptions resumed_runs_no_other_events.
+
+(* counting form: one start and one end-or-error invocation per attachment and execution *)
+Theorem resumed_runs_exactly_once_paired :
+  forall w is_stream g ginf fuel opts plan r t,
+    NoDup (g :: rstages_uids plan) ->
+    In r (run_seq fuel opts plan) ->
+    traces (graph_prog is_stream g ginf (fst r) (snd r)) t ->
+    forall e, In e (graph_table is_stream g ginf (fst r) (snd r)) ->
+    forall s f, ue_timings e = [s; f] ->
+    forall x tm,
+      List.length (filter (is_ev (ue_unit e) x tm (ue_info e)) (st_log (run_script true w t))) =
+      if (timing_eqb tm s || timing_eqb tm f) && w_needs w x tm
+      then count_occ N.eq_dec (ue_list e ++ w_globals w) x else 0%nat.
+Proof. exact runs_exactly_once_paired. Qed.
+Print Assumptions resumed_runs_exactly_once_paired.
+
+(* in every run of the sequence a handler is invoked for a unit only if it is global or an option
+   of the CALL (not only of the reduced option list of the resumed run) attaches it to the unit *)
+Theorem resumed_runs_invoked_only_where_attached :
+  forall w is_stream g ginf fuel opts plan r t,
+    NoDup (g :: rstages_uids plan) ->
+    In r (run_seq fuel opts plan) ->
+    traces (graph_prog is_stream g ginf (fst r) (snd r)) t ->
+    forall ev, In ev (st_log (run_script true w t)) ->
+      exists e pe, In (e, pe) (graph_table_p is_stream g ginf (fst r) (snd r)) /\
+        ev_unit ev = ue_unit e /\
+        (In (ev_handler ev) (w_globals w) \/
+         exists o, In o opts /\ In (ev_handler ev) (fst o) /\ attaches o pe).
+Proof. exact runs_invoked_only_where_attached. Qed.
+Print Assumptions resumed_runs_invoked_only_where_attached.
+
+(* the sequence ends: with fuel beyond the number of interrupts still to come, the last run of
+   [plan_seq] is not interrupted (so the fuel Corr/C10.v uses, S (total_intr plan), never cuts a
+   sequence short), and more fuel changes nothing *)
+Theorem run_sequence_ends :
+  forall fuel opts plan,
+    (total_intr plan < fuel)%nat ->
+    exists pre last, plan_seq fuel opts plan = pre ++ [last] /\
+      is_intr (run_outcome (live_opts last opts) last) = false.
+Proof. exact plan_seq_complete. Qed.
+Print Assumptions run_sequence_ends.
+
+Theorem run_sequence_fuel_irrelevant :
+  forall fuel opts plan k,
+    (total_intr plan < fuel)%nat -> plan_seq (fuel + k) opts plan = plan_seq fuel opts plan.
+Proof. exact plan_seq_fuel. Qed.
+Print Assumptions run_sequence_fuel_irrelevant.
+
+(* Non-vacuity: lambda 1 asks for an interrupt once; sub graph 2 holds lambda 3 and then lambda 4
+   (Transform) that asks once; lambda 5 completes; second stage lambda 6.  Handler 1 for the whole
+   graph, 2 designated to node path [2; 2] (lambda 4), 3 to node 5.  Run 0 is interrupted after
+   the first stage (units 1, 4, the sub graph 2 and the graph end with an error); run 1 executes 1
+   and 4 again - not 3 and 5, and the option designated to 5 is gone - and then 6. *)
+Definition ex_plan : list (list rnode) :=
+  [[RLambda 1 1 1 1 false 1; RSub 2 2 2 [[RLambda 3 1 3 1 false 0]; [RLambda 4 2 4 8 false 1]];
+    RLambda 5 3 5 1 false 0];
+   [RLambda 6 4 6 1 false 0]].
+Definition ex_popts : list copt := [([1], []); ([2], [[2; 2]]); ([3], [[3]])].
+
+Example resumed_runs_nonvacuous :
+  NoDup (0 :: rstages_uids ex_plan) /\
+  map (fun r => (fst r, map (fun e => (ue_unit e, ue_list e, ue_timings e)) (graph_table false 0 0 (fst r) (snd r))))
+      (run_seq (S (total_intr ex_plan)) ex_popts ex_plan) =
+    [(ex_popts,
+      [(0, [1], [TStart; TError]); (1, [1], [TStart; TError]); (2, [1], [TStart; TError]);
+       (3, [1], [TStart; TEnd]); (4, [1; 2], [TStartStream; TError]); (5, [1; 3], [TStart; TEnd])]);
+     ([([1], []); ([2], [[2; 2]])],
+      [(0, [1], [TStart; TEnd]); (1, [1], [TStart; TEnd]); (2, [1], [TStart; TEnd]);
+       (4, [1; 2], [TStartStream; TEndStream]); (6, [1], [TStart; TEnd])])] /\
+  map (fun r => filter (of_unit 4)
+                (st_log (run_script true (w_plain [9]) (flatten_alt (graph_prog false 0 0 (fst r) (snd r))))))
+      (run_seq (S (total_intr ex_plan)) ex_popts ex_plan) =
+    [[Ev 4 9 TStartStream 4; Ev 4 2 TStartStream 4; Ev 4 1 TStartStream 4;
+      Ev 4 1 TError 4; Ev 4 2 TError 4; Ev 4 9 TError 4];
+     [Ev 4 9 TStartStream 4; Ev 4 2 TStartStream 4; Ev 4 1 TStartStream 4;
+      Ev 4 1 TEndStream 4; Ev 4 2 TEndStream 4; Ev 4 9 TEndStream 4]].
+Proof.
+  split.
+  - vm_compute. repeat (constructor; [simpl; intuition discriminate|]). constructor.
+  - split; vm_compute; reflexivity.
+Qed.
 
 (* ------------------------------------------------------------------ stream_payload_independent *)
 
